@@ -141,6 +141,18 @@ pub fn build_project(m: &SchemaModel, rng: &mut Rng) -> (ProjectCase, BTreeSet<S
     for (k, (class, d, exempt)) in variants(m, &bases[0]).into_iter().enumerate() {
         docs.push(DocCase { name: format!("f{k}.graphql"), text: nvh::render::doc_text(&d), fault: class, exempt });
     }
+    // the labelled-fault catalogue: every mutation operator of the operation-checker properties once, every pair of
+    // kinds with an impossible and an applicable spread, and the same-named members under their own aliases
+    for (k, (class, d)) in crate::catalogue::fault_catalogue(rng, m, &bases).into_iter().enumerate() {
+        docs.push(DocCase { name: format!("c{k}.graphql"), text: nvh::render::doc_text(&d), fault: format!("fault:{class}"), exempt: false });
+    }
+    for (k, (class, d, _fault)) in crate::catalogue::spread_pairs(rng, m).into_iter().enumerate() {
+        docs.push(DocCase { name: format!("s{k}.graphql"), text: nvh::render::doc_text(&d), fault: class, exempt: false });
+    }
+    if let Some(d) = crate::catalogue::shared_members_doc(m) {
+        feats.insert("same-named-members-selected".into());
+        docs.push(DocCase { name: "vshared.graphql".into(), text: nvh::render::doc_text(&d), fault: "valid".into(), exempt: false });
+    }
     let mut j = J::from_value(&introspection_json(m));
     if rng.coin() {
         // an introspection result that lists neither the `__*` types nor some of the built-in scalars (the reader does
@@ -221,6 +233,23 @@ fn run_check(cli: &str, dir: &std::path::Path, args: &[&str]) -> CheckOut {
         v.sort();
     }
     out
+}
+
+/// key of a document class in the input distribution: the catalogue's classes in full, the others up to the first `:`
+fn fault_key(fault: &str) -> &str {
+    if fault.starts_with("fault:") || fault.contains("-spread:") {
+        fault
+    } else {
+        fault.split(':').next().unwrap_or("")
+    }
+}
+
+/// the same command in the two project directories, concurrently (two independent processes; results in route order)
+fn run_both(cli: &str, dirs: &[std::path::PathBuf; 2], command: &str) -> Vec<CheckOut> {
+    std::thread::scope(|s| {
+        let hs: Vec<_> = dirs.iter().map(|d| s.spawn(move || run_check(cli, d, &[command]))).collect();
+        hs.into_iter().map(|h| h.join().expect("CLI runner thread")).collect()
+    })
 }
 
 // ---------------------------------------------------------------------------------------------------------------
@@ -338,7 +367,11 @@ pub fn run_project(args: &Args, cli: &str, rep: &mut Report, pc: &ProjectCase, t
         pr.write(d);
     }
     // ---- check, all documents
-    let outs: Vec<CheckOut> = dirs.iter().map(|d| run_check(cli, d, &["check"])).collect();
+    let t0 = std::time::Instant::now();
+    let outs: Vec<CheckOut> = run_both(cli, &dirs, "check");
+    if std::env::var("C15_TIMING").is_ok() {
+        eprintln!("check x2 {:?}", t0.elapsed());
+    }
     rep.evaluations += 2;
     let (a, b) = (&outs[0], &outs[1]);
     if a.code.is_none() || b.code.is_none() || a.code.map_or(false, |c| c > 1) || b.code.map_or(false, |c| c > 1) {
@@ -352,11 +385,11 @@ pub fn run_project(args: &Args, cli: &str, rep: &mut Report, pc: &ProjectCase, t
         rep.o_cases += 1;
         let da = a.diags.get(&doc.name).cloned().unwrap_or_default();
         let db = b.diags.get(&doc.name).cloned().unwrap_or_default();
-        rep.count(&format!("doc:{}", doc.fault.split(':').next().unwrap_or("")));
+        rep.count(&format!("doc:{}", fault_key(&doc.fault)));
         if schema_level_failure {
             continue;
         }
-        rep.count(&format!("verdict:{}:{}", doc.fault.split(':').next().unwrap_or(""), match (da.is_empty(), db.is_empty()) {
+        rep.count(&format!("verdict:{}:{}", fault_key(&doc.fault), match (da.is_empty(), db.is_empty()) {
             (true, true) => "both-accept",
             (false, false) => "both-reject",
             (true, false) => "sdl-accepts-json-rejects",
@@ -388,7 +421,11 @@ pub fn run_project(args: &Args, cli: &str, rep: &mut Report, pc: &ProjectCase, t
         }
     }
     if !schema_level_failure {
-        let gens: Vec<CheckOut> = dirs.iter().map(|d| run_check(cli, d, &["generate"])).collect();
+        let t0 = std::time::Instant::now();
+        let gens: Vec<CheckOut> = run_both(cli, &dirs, "generate");
+        if std::env::var("C15_TIMING").is_ok() {
+            eprintln!("generate x2 {:?}", t0.elapsed());
+        }
         rep.evaluations += 2;
         if gens[0].code != Some(0) || gens[1].code != Some(0) {
             rep.fail("O", "generate:exit-code", &format!("generate on documents both routes accept: sdl exit {:?} ({}), json exit {:?} ({})", gens[0].code, gens[0].raw, gens[1].code, gens[1].raw), pc.to_json(None));
@@ -481,7 +518,11 @@ pub fn o_case(args: &Args, cli: &str, rep: &mut Report, m: &SchemaModel, seed: u
         return;
     }
     let mut rng = Rng::new(seed.wrapping_mul(0x9E37_79B9).wrapping_add(15));
+    let t0 = std::time::Instant::now();
     let (pc, feats) = build_project(m, &mut rng);
+    if std::env::var("C15_TIMING").is_ok() {
+        eprintln!("build_project {:?} docs {}", t0.elapsed(), pc.docs.len());
+    }
     for f in feats {
         rep.count(&format!("doc-feature:{}", f.split(':').next().unwrap_or("")));
     }
